@@ -845,3 +845,131 @@ func hcErrChecks(f *HCFunc, cb string) [][4]string {
 	}
 	return out
 }
+
+// ---------------------------------------------------------------------------------- sqlcheck.c (round 3b)
+
+var hcKwCmpRe = regexp.MustCompile(`str(n?)cmp\s*\(\s*keyword\s*,\s*"([^"]*)"\s*(?:,\s*(\d+)\s*)?\)\s*==\s*0`)
+var hcReturnRe = regexp.MustCompile(`\breturn\s+([^;]+);`)
+
+type hcIf struct{ condOpen, condClose, blockStart, blockEnd int }
+
+func hcIfs(body string) []hcIf {
+	var out []hcIf
+	for _, m := range hcIfRe.FindAllStringIndex(body, -1) {
+		open := m[1] - 1
+		cl := hcMatchParen(body, open)
+		if cl < 0 {
+			continue
+		}
+		i := cl + 1
+		for i < len(body) && (body[i] == ' ' || body[i] == '\t' || body[i] == '\n' || body[i] == '\r') {
+			i++
+		}
+		end := i
+		if i < len(body) && body[i] == '{' {
+			d := 0
+			for j := i; j < len(body); j++ {
+				if body[j] == '{' {
+					d++
+				} else if body[j] == '}' {
+					d--
+					if d == 0 {
+						end = j
+						break
+					}
+				}
+			}
+		} else if j := strings.Index(body[i:], ";"); j >= 0 {
+			end = i + j
+		}
+		out = append(out, hcIf{open, cl, i, end})
+	}
+	return out
+}
+
+// hcKeywordRules: for every `return <non-zero>` of the body, the keyword comparisons of the innermost enclosing `if`
+// (rows (keyword, prefix|exact)); (PRAGMA, pragma) when the condition is the call of the pragma helper `delegate`;
+// anything else as ("…text…", "unrecognised").  enclosing: the keyword an outer `if` must compare with ("" = none).
+func hcKeywordRules(body, delegate, enclosing string) [][2]string {
+	var out [][2]string
+	ifs := hcIfs(body)
+	for _, r := range hcReturnRe.FindAllStringSubmatchIndex(body, -1) {
+		val := strings.TrimSpace(body[r[2]:r[3]])
+		if val == "0" || val == "-1" {
+			continue
+		}
+		var encl []hcIf // enclosing ifs, innermost first
+		for _, f := range ifs {
+			if f.blockStart <= r[0] && r[0] <= f.blockEnd {
+				encl = append(encl, f)
+			}
+		}
+		sort.Slice(encl, func(i, j int) bool { return encl[i].blockStart > encl[j].blockStart })
+		if len(encl) == 0 {
+			out = append(out, [2]string{"return " + val, "unrecognised"})
+			continue
+		}
+		cond := strings.Join(strings.Fields(body[encl[0].condOpen+1:encl[0].condClose]), " ")
+		if delegate != "" && strings.Contains(cond, delegate+"(") && val != "1" {
+			out = append(out, [2]string{"PRAGMA", "pragma"})
+			continue
+		}
+		if enclosing != "" {
+			ok := false
+			for _, f := range encl[1:] {
+				for _, m := range hcKwCmpRe.FindAllStringSubmatch(body[f.condOpen+1:f.condClose], -1) {
+					if strings.HasPrefix(m[2], enclosing) {
+						ok = true
+					}
+				}
+			}
+			if !ok {
+				out = append(out, [2]string{cond, "unrecognised"})
+				continue
+			}
+		}
+		ms := hcKwCmpRe.FindAllStringSubmatchIndex(cond, -1)
+		rest := cond
+		var rows [][2]string
+		for i := len(ms) - 1; i >= 0; i-- {
+			m := ms[i]
+			kw, mode := cond[m[4]:m[5]], "exact"
+			if m[2] < m[3] && cond[m[2]:m[3]] == "n" {
+				mode = "prefix"
+				if m[6] >= 0 {
+					n := 0
+					for _, ch := range cond[m[6]:m[7]] {
+						n = n*10 + int(ch-'0')
+					}
+					if n < len(kw) {
+						kw = kw[:n]
+					}
+				}
+			}
+			rows = append([][2]string{{kw, mode}}, rows...)
+			rest = rest[:m[0]] + rest[m[1]:]
+		}
+		rest = strings.NewReplacer("||", "", "(", "", ")", "", " ", "").Replace(rest)
+		if val != "1" || len(rows) == 0 || rest != "" {
+			out = append(out, [2]string{cond + " => return " + val, "unrecognised"})
+			continue
+		}
+		out = append(out, rows...)
+	}
+	return out
+}
+
+func hcSQLCheckRules(fns []*HCFunc) (first, pragmas [][2]string) {
+	for _, f := range fns {
+		switch f.Name {
+		case "sqlcheck_is_readonly_sql":
+			first = hcKeywordRules(f.Body, "sqlcheck_is_permitted_pragma", "")
+		case "sqlcheck_is_permitted_pragma":
+			pragmas = hcKeywordRules(f.Body, "", "PRAGMA")
+		}
+	}
+	if first == nil {
+		first = [][2]string{{"sqlcheck_is_readonly_sql not found", "unrecognised"}}
+	}
+	return
+}
